@@ -1,13 +1,19 @@
 use syntax::{parser::TextRange, SyntaxNode};
 
+/// The range of `node` without its trailing trivia: from the start of the node to the end of
+/// its last non-trivia token (empty if it has none).
+///
+/// The tokens are taken from `descendants_with_tokens` rather than `last_token`/`prev_token`:
+/// those give up when they meet an empty node, and the parser leaves empty nodes behind for
+/// every missing part (`class Foo` without a body ends in an empty `Body`). The zero-length
+/// `Eof` token it stores when a statement is expected at the end of the file does not count.
 pub fn range_excluding_trivia(node: &SyntaxNode) -> TextRange {
     let start = node.text_range().start();
-    let mut end_token = node.last_token();
-    while let Some(token) = end_token {
-        if !token.kind().is_trivia() {
-            return TextRange::new(start, token.text_range().end());
-        }
-        end_token = token.prev_token();
-    }
-    TextRange::empty(start)
+    let end = node
+        .descendants_with_tokens()
+        .filter_map(|element| element.into_token())
+        .filter(|token| !token.kind().is_trivia() && !token.text_range().is_empty())
+        .last()
+        .map_or(start, |token| token.text_range().end());
+    TextRange::new(start, end)
 }
